@@ -5,6 +5,7 @@ package main
 // decides a verdict - the walker does.
 
 import (
+	"bytes"
 	"fmt"
 	"os"
 	"sort"
@@ -877,6 +878,58 @@ func (h *hist) stepMineMixed() bool {
 			excluded[s] = true
 			for _, d := range v.descendants(s) {
 				excluded[d] = true
+			}
+		}
+	}
+	// transactions the pool has rejected or seen replaced earlier (they sit in its rejected list), confirmed by this
+	// block after all: whatever pooled transaction conflicts with them (and its descendants) has to go
+	if h.r.Intn(2) == 0 {
+		var cands []*genTx
+		for bidx, tr := range txpool.TransactionsRejected {
+			_ = bidx
+			x := h.subbed[Hash(tr.Id.Hash)]
+			if x == nil || x.badScript || x.poison != "" {
+				continue
+			}
+			switch tr.Reason { // only what was refused for pool policy (a valid transaction that lost against pooled ones)
+			case txpool.TX_REJECTED_RBF_LOWFEE, txpool.TX_REJECTED_RBF_FINAL, txpool.TX_REJECTED_RBF_100, txpool.TX_REJECTED_REPLACED, txpool.TX_REJECTED_LOW_FEE:
+			default:
+				continue
+			}
+			ok := len(x.t.In) > 0 && len(x.t.Out) > 0
+			for _, in := range x.t.In {
+				if _, conf := h.ref.Utxo[in.Prev]; !conf || used[in.Prev] {
+					ok = false
+				}
+			}
+			if ok && refchain.IsFinal(x.t, h.ref.Tip.Height+1, h.ref.Tip.MTP()) {
+				cands = append(cands, x)
+			}
+		}
+		sort.Slice(cands, func(i, j int) bool { return bytes.Compare(cands[i].id[:], cands[j].id[:]) < 0 })
+		for i, n := 0, 1+h.r.Intn(2); i < n && len(cands) > 0; i++ {
+			k := h.r.Intn(len(cands))
+			x := cands[k]
+			cands = append(cands[:k], cands[k+1:]...)
+			free := true
+			for _, in := range x.t.In {
+				free = free && !used[in.Prev]
+			}
+			if !free {
+				continue
+			}
+			y := *x
+			y.family = "block-rejected-earlier"
+			extra = append(extra, &y)
+			h.run.Inc("blocks_confirming_an_earlier_rejected_tx")
+			for _, in := range x.t.In {
+				used[in.Prev] = true
+				for _, s := range v.spent[in.Prev] {
+					excluded[s] = true
+					for _, d := range v.descendants(s) {
+						excluded[d] = true
+					}
+				}
 			}
 		}
 	}
